@@ -22,6 +22,7 @@ def run(ctx):
     ctx.run("C02.ONE-ID", "R-FLOW", mem.one_id)
     ctx.run("C02.PATHS", "R-DUAL", mem.paths)
     ctx.run("C02.SHELVE", "R-FLOW", mem.shelve)
+    ctx.run("C06.CACHE-FORWARD", "R-FLOW", mem.cache_forward)
     ctx.run("C12.CHECK-DOMINATES", "R-ORDER", mem.check_dominates)
     ctx.run("C07.KINDS", "R-TABLE", c07.kinds)
     ctx.run("C07.LOCKSTEP", "R-DUAL", c07.lockstep)
